@@ -461,7 +461,9 @@ def check_child(ex, p):
              Implies(And(has_self, Not(enter_form)), BoolVal(method in ("push", "push_async_exit"))))
     ex.oblig("C09.exit_stack.await_tag", "clause", p, BoolVal(tag == "await ") == And(enter_form, Not(sync)))
     manager = If(has_self, self_obj, NONE)
-    obj_exp = If(ex.truthy(p, SV(manager)), manager, cb)
+    # the property: "identifying the registered manager or callable as obj" - the manager whenever there is one, however it
+    # answers bool() (a falsy manager used to be replaced by its bound __exit__: finding F17)
+    obj_exp = If(And(has_self, Not(Val.is_none(self_obj))), self_obj, cb)
     ex.oblig("C09.exit_stack.child_fields", "clause", p,
              And(is_kind(child, "Context"), H.getf(child, "obj") == obj_exp, H.getf(child, "is_async") == mkbool(Not(sync)),
                  H.getf(child, "start_line") == H.getf(ctx, "start_line"), H.getf(child, "is_exiting") == mkbool(False),
